@@ -52,6 +52,7 @@ pub struct Lexer {
     possible_search_root: bool,
     after_open: bool,
     after_where: bool,
+    after_by: bool,
     after_operator: bool,
 }
 
@@ -65,6 +66,7 @@ impl Lexer {
             possible_search_root: false,
             after_open: false,
             after_where: false,
+            after_by: false,
             after_operator: false,
         }
     }
@@ -206,6 +208,7 @@ impl Lexer {
                 "from" => {
                     self.before_from = false;
                     self.after_where = false;
+                    self.after_by = false;
                     Some(Lexem::From)
                 }
                 "where" => {
@@ -216,7 +219,11 @@ impl Lexer {
                 "and" => Some(Lexem::And),
                 "not" if self.after_where => Some(Lexem::Not),
                 "order" => Some(Lexem::Order),
-                "by" => Some(Lexem::By),
+                "by" => {
+                    // GROUP BY and ORDER BY are followed by expressions, not by paths
+                    self.after_by = true;
+                    Some(Lexem::By)
+                }
                 "asc" => self.next_lexem(),
                 "desc" => Some(Lexem::DescendingOrder),
                 "limit" => Some(Lexem::Limit),
@@ -238,16 +245,18 @@ impl Lexer {
 
     fn is_arithmetic_op_char(&self, c: char) -> bool {
         match c {
-            '+' | '-' => self.before_from || self.after_where,
+            '+' | '-' => self.before_from || self.after_where || self.after_by,
             '*' | '/' | '%' => {
-                (self.before_from || self.after_where) && !self.after_open && !self.after_operator
+                (self.before_from || self.after_where || self.after_by)
+                    && !self.after_open
+                    && !self.after_operator
             }
             _ => false,
         }
     }
 
     fn is_op_char(&self, c: char) -> bool {
-        if !self.before_from && !self.after_where {
+        if !self.before_from && !self.after_where && !self.after_by {
             return false;
         }
 
